@@ -7,7 +7,9 @@
   Cello/RH.lean and the lemmas of CelloProofs/Lemmas/RH*.lean apply to the executed model directly.
 
   `none` as a result means: the C code would divide by zero / never leave a probing loop / run out of the nesting the model
-  provides.  The property theorems show it does not happen from well-formed states.
+  provides / call `destruct(NULL)` (GC_Rem_Ptr with ptr = NULL while GC_Sweep finalises: an exception raised inside the
+  collector).  The property theorems show it does not happen from well-formed states when no destructor deletes NULL; the
+  `…_refuted` theorems of Props/C17.lean exhibit the excluded region.
 -/
 import Cello.RH
 import CelloGen.Reg
@@ -138,11 +140,14 @@ def resizeLess (c : Cfg) (r : Reg) : Option Reg :=
 def memPtr (c : Cfg) (r : Reg) (p : Nat) : Option Bool :=
   if hn : 0 < r.n then RH.lookup (hashOf c) r.slots p hn else some false
 
-/-- `GC_Rem_Ptr` up to (not including) its final `dealloc(destruct(…))`: the new state and the object to finalise -/
+/-- `GC_Rem_Ptr` up to (not including) its final `dealloc(destruct(…))`: the new state and the object to finalise.
+    The strike-off scan compares the raw words `gc->freelist[i] is ptr`; a slot that has been struck off (or whose object
+    GC_Sweep is finalising right now) holds NULL, so `ptr = NULL` matches it and the code runs `dealloc(destruct(NULL))`:
+    `type_of(NULL)` raises ValueError inside the collector (outcome `none`: the C code does not continue normally). -/
 def remPtr (c : Cfg) (r : Reg) (p : Nat) : Option (Reg × Option Nat) :=
   if hn : 0 < r.n then
-    match r.pending.findIdx? (fun x => x == some p) with
-    | some i => some ({ r with pending := r.pending.setIfInBounds i none }, some p)
+    match r.pending.findIdx? (fun x => x.getD 0 == p) with
+    | some i => if p = 0 then none else some ({ r with pending := r.pending.setIfInBounds i none }, some p)
     | none =>
       match findLoop r.slots p r.n (hashOf c p % r.n) 0 (Nat.mod_lt _ hn) with
       | none => none
